@@ -106,6 +106,11 @@ impl OrdSpecImpl for $t {
     open spec fn cmp_spec(&self, o: &$t) -> Ordering { nat_cmp(self@, o@) }
 }
 impl $t {
+    /// comparison operators used in spec expressions (`a > b` in a contract or closure annotation)
+    pub open spec fn spec_gt(self, o: $t) -> bool { self@ > o@ }
+    pub open spec fn spec_lt(self, o: $t) -> bool { self@ < o@ }
+    pub open spec fn spec_ge(self, o: $t) -> bool { self@ >= o@ }
+    pub open spec fn spec_le(self, o: $t) -> bool { self@ <= o@ }
     /// `Ord::max` / `Ord::min`
     #[verifier::external_body]
     pub fn max(self, o: $t) -> (r: $t) ensures r@ == (if self@ >= o@ { self@ } else { o@ }), r == self || r == o { unimplemented!() }
@@ -116,16 +121,16 @@ impl $t {
 cmp_impls!(Uint64, Uint128, Uint256, Uint512, Decimal, Decimal256);
 
 // checked integer ops shared by the four Uint types; $max is the spec-level maximum
-macro_rules! uint_ops { ($t:ty, $max:expr) => { verus! {
+macro_rules! uint_ops { ($t:ty, $max:expr, $zero:expr, $one:expr) => { verus! {
 impl $t {
     #[verifier::external_body]
     #[verifier::when_used_as_spec(spec_zero)]
     pub fn zero() -> (r: $t) ensures r@ == 0, r == Self::spec_zero() { unimplemented!() }
-    pub uninterp spec fn spec_zero() -> $t;
+    pub open spec fn spec_zero() -> $t { $zero }
     #[verifier::external_body]
     #[verifier::when_used_as_spec(spec_one)]
     pub fn one() -> (r: $t) ensures r@ == 1, r == Self::spec_one() { unimplemented!() }
-    pub uninterp spec fn spec_one() -> $t;
+    pub open spec fn spec_one() -> $t { $one }
     #[verifier::external_body]
     #[verifier::when_used_as_spec(spec_is_zero)]
     pub fn is_zero(&self) -> (r: bool) ensures r == (self@ == 0) { unimplemented!() }
@@ -255,10 +260,10 @@ impl RemSpecImpl<$t> for $t {
     uninterp spec fn rem_spec(self, o: $t) -> $t;
 }
 } } }
-uint_ops!(Uint64, U64_MAX);
-uint_ops!(Uint128, U128_MAX);
-uint_ops!(Uint256, u256_max());
-uint_ops!(Uint512, u512_max());
+uint_ops!(Uint64, U64_MAX, Uint64 { v: 0 }, Uint64 { v: 1 });
+uint_ops!(Uint128, U128_MAX, Uint128 { v: 0 }, Uint128 { v: 1 });
+uint_ops!(Uint256, u256_max(), Uint256 { hi: 0, lo: 0 }, Uint256 { hi: 0, lo: 1 });
+uint_ops!(Uint512, u512_max(), Uint512 { hi: Uint256 { hi: 0, lo: 0 }, lo: Uint256 { hi: 0, lo: 0 } }, Uint512 { hi: Uint256 { hi: 0, lo: 0 }, lo: Uint256 { hi: 0, lo: 1 } });
 
 verus! {
 
